@@ -15,11 +15,21 @@ Proof. intros s. reflexivity. Qed.
 Lemma infl_state_equiv : forall s, infl_equiv s (init_infl (export_infl s)).
 Proof. intros s. unfold infl_equiv. cbn. auto. Qed.
 
+Lemma nodupb_sorted : forall V (m : smap V), sortedb m = true -> nodupb (map fst m) = true.
+Proof.
+  induction m as [|[k v] r IH]; intros Hs; [reflexivity|].
+  apply sortedb_cons in Hs. destruct Hs as [Hs Hall]. cbn [map fst nodupb]. rewrite (IH Hs), andb_true_r.
+  apply negb_true_iff. apply not_true_iff_false. intro Hex. apply existsb_exists in Hex. destruct Hex as [x [Hin E]].
+  apply Nat.eqb_eq in E. subst x. apply in_map_iff in Hin. destruct Hin as [[k' v'] [E Hin]]. cbn in E. subst k'.
+  specialize (Hall _ _ Hin). lia.
+Qed.
+
 (* ================================================================== epochs *)
-Record wf_epochs (s : epochs_st) : Prop := {
+Record wf_epochs (empty : key) (s : epochs_st) : Prop := {
   we_sorted : sortedb s = true;
   we_keys : keys_match ep_id s;
-  we_started : forall k e, In (k, e) s -> ep_start e <> zero_time   (* a stored epoch always has a start time *)
+  we_started : forall k e, In (k, e) s -> ep_start e <> zero_time;  (* a stored epoch always has a start time *)
+  we_valid : forall k e, In (k, e) s -> epoch_valid EpValNonneg empty e = true   (* EpochInfo.Validate accepts it *)
 }.
 
 Definition rb (h : Z) (kv : key * epoch) : key * epoch := (fst kv, rebase_epoch h (snd kv)).
@@ -55,18 +65,32 @@ Proof.
     rewrite IH; rewrite <- app_assoc; cbn [app]; auto.
 Qed.
 
-Lemma epochs_init_export : forall h t s, wf_epochs s ->
-  init_epochs h t (export_epochs s) = Some (map (rb h) s).
+Lemma map_ep_id_fst : forall (m : epochs_st), keys_match ep_id m -> map ep_id (map snd m) = map fst m.
 Proof.
-  intros h t s [Hs Hk Hst]. unfold init_epochs, export_epochs.
+  induction m as [|[k v] r IH]; intros Hk; [reflexivity|].
+  cbn [map snd fst]. rewrite (Hk k v (or_introl eq_refl)). f_equal. apply IH. intros k' v' Hin. apply (Hk k' v'). right. exact Hin.
+Qed.
+
+Lemma epochs_gen_valid_export : forall empty s, wf_epochs empty s -> epochs_gen_valid EpValNonneg empty (export_epochs s) = true.
+Proof.
+  intros empty s [Hs Hk _ Hv]. unfold epochs_gen_valid, export_epochs.
+  rewrite (map_ep_id_fst _ Hk), (nodupb_sorted _ _ Hs). cbn [andb].
+  apply forallb_forall. intros e Hin. apply in_map_iff in Hin. destruct Hin as [[k e'] [E Hin]]. cbn in E. subst e'. exact (Hv k e Hin).
+Qed.
+
+Lemma epochs_init_export : forall empty h t s, wf_epochs empty s ->
+  init_epochs EpValNonneg empty h t (export_epochs s) = Some (map (rb h) s).
+Proof.
+  intros empty h t s W. unfold init_epochs. rewrite (epochs_gen_valid_export empty s W).
+  destruct W as [Hs Hk Hst _]. unfold export_epochs.
   exact (init_epochs_fold h t s [] Hs Hk Hst).
 Qed.
 
-Lemma epochs_roundtrip : forall h t s, wf_epochs s ->
-  exists s', init_epochs h t (export_epochs s) = Some s' /\
+Lemma epochs_roundtrip : forall empty h t s, wf_epochs empty s ->
+  exists s', init_epochs EpValNonneg empty h t (export_epochs s) = Some s' /\
              export_epochs s' = map (rebase_epoch h) (export_epochs s) /\ epochs_equiv h s s'.
 Proof.
-  intros h t s W. exists (map (rb h) s). split; [exact (epochs_init_export h t s W)|]. split.
+  intros empty h t s W. exists (map (rb h) s). split; [exact (epochs_init_export empty h t s W)|]. split.
   - unfold export_epochs. rewrite !map_map. reflexivity.
   - reflexivity.
 Qed.
@@ -257,15 +281,6 @@ Proof.
     rewrite Hg.
     replace (pre ++ (d, a) :: adm') with ((pre ++ [(d, a)]) ++ adm') by (rewrite <- app_assoc; reflexivity).
     rewrite IH; [reflexivity | rewrite <- app_assoc; exact Hs | assumption].
-Qed.
-
-Lemma nodupb_sorted : forall V (m : smap V), sortedb m = true -> nodupb (map fst m) = true.
-Proof.
-  induction m as [|[k v] r IH]; intros Hs; [reflexivity|].
-  apply sortedb_cons in Hs. destruct Hs as [Hs Hall]. cbn [map fst nodupb]. rewrite (IH Hs), andb_true_r.
-  apply negb_true_iff. apply not_true_iff_false. intro Hex. apply existsb_exists in Hex. destruct Hex as [x [Hin E]].
-  apply Nat.eqb_eq in E. subst x. apply in_map_iff in Hin. destruct Hin as [[k' v'] [E Hin]]. cbn in E. subst k'.
-  specialize (Hall _ _ Hin). lia.
 Qed.
 
 Lemma tf_parse_map : forall F (ds : smap (key * id)) (adm : smap id),
@@ -589,7 +604,7 @@ Qed.
 (* ================================================================== the application *)
 Record wf_app (F : funs) (env : list authacc) (s : app_st) : Prop := {
   wa_sudo : a_sudo s <> None;
-  wa_epochs : wf_epochs (a_epochs s);
+  wa_epochs : wf_epochs (f_empty F) (a_epochs s);
   wa_oracle : wf_oracle' (a_oracle s);
   wa_tf : wf_tf F (a_tf s);
   wa_devgas : wf_devgas F (a_devgas s);
@@ -625,17 +640,17 @@ Qed.
     heights re-based to [h]; and the imported state agrees with the original up to the exception
     list of the tree's genesis code ([stale_ok] / [reset_ok] say whether that list contains the two
     defect exceptions). *)
-Theorem app_roundtrip : forall c F env h t s, wf_app F env s ->
+Theorem app_roundtrip : forall c F env h t s, c_ep_val c = EpValNonneg -> wf_app F env s ->
   exists g s',
     export_app env s = Some g /\
     init_app c F env (tf_bankmd (a_tf s)) h t g = Some s' /\
     export_app env s' = Some (rebase_gen h g) /\
     state_equiv (negb (match c_rid c with RidLastPlus1 => true | _ => false end)) (negb (c_tf_keeps_bank_md c)) env h t s s'.
 Proof.
-  intros c F env h t s [Wsu We Wo Wt Wd Wv Wenv Wjson].
+  intros c F env h t s Hep [Wsu We Wo Wt Wd Wv Wenv Wjson].
   destruct (a_sudo s) as [su|] eqn:Esu; [|congruence].
   destruct (tf_roundtrip c F _ Wt) as (gt & Hgt & tf' & Htf' & Hgt' & Htp & Htd & Htc & Hta & Hti & Htm).
-  destruct (epochs_roundtrip h t _ We) as (e' & He' & Hee & Heq).
+  destruct (epochs_roundtrip _ h t _ We) as (e' & He' & Hee & Heq).
   destruct (evm_roundtrip F env _ Wv Wenv) as (ev' & Hev' & Hevx & Hevq).
   pose proof (oracle_init_export c h t _ Wo) as Ho. cbn zeta in Ho.
   destruct Ho as (Hox & Hop & Howl & Hof & Hom & Hopv & Hov & Hopr & Horw & Hor & Hosn & Hoid).
@@ -643,7 +658,7 @@ Proof.
   - unfold export_app. rewrite Esu, Hgt. cbn [export_sudo]. reflexivity.
   - split.
     + unfold init_app. cbn [g_epochs g_tf g_devgas g_evm g_sudo g_infl g_oracle].
-      rewrite He', Htf', (devgas_roundtrip F _ Wd), Hev', (json_oracle_gen_id F _ Wjson). reflexivity.
+      unfold init_epochs_mod. rewrite Hep, He', Htf', (devgas_roundtrip F _ Wd), Hev', (json_oracle_gen_id F _ Wjson). reflexivity.
     + split.
       * unfold export_app. cbn [a_sudo a_tf a_infl a_epochs a_oracle a_devgas a_evm init_sudo export_sudo].
         rewrite Hgt'. unfold rebase_gen. cbn [g_sudo g_infl g_epochs g_oracle g_tf g_devgas g_evm].
@@ -684,10 +699,12 @@ Proof.
   intros F env s H. unfold wf_appb in H. andb_split.
   constructor.
   - destruct (a_sudo s); [discriminate | discriminate].
-  - match goal with H : wf_epochsb _ = true |- _ => unfold wf_epochsb in H; andb_split end.
-    constructor; [assumption | apply keys_matchb_sound; assumption|].
-    intros k e Hin. match goal with H : forallb _ (a_epochs s) = true |- _ =>
-      rewrite forallb_forall in H; specialize (H _ Hin); cbn in H; apply negb_true_iff in H; apply Z.eqb_neq in H; exact H end.
+  - match goal with H : wf_epochsb _ _ = true |- _ => unfold wf_epochsb in H; andb_split end.
+    constructor; [assumption | apply keys_matchb_sound; assumption | |].
+    + intros k e Hin. match goal with H : forallb (fun kv => negb _) (a_epochs s) = true |- _ =>
+        rewrite forallb_forall in H; specialize (H _ Hin); cbn in H; apply negb_true_iff in H; apply Z.eqb_neq in H; exact H end.
+    + intros k e Hin. match goal with H : forallb (fun kv => epoch_valid _ _ _) (a_epochs s) = true |- _ =>
+        rewrite forallb_forall in H; exact (H _ Hin) end.
   - match goal with H : wf_oracleb _ = true |- _ => unfold wf_oracleb in H; andb_split end.
     constructor; try assumption; try (apply keys_matchb_sound; assumption).
     + split; [apply zsortedb_sound; assumption|].
@@ -724,8 +741,8 @@ Definition ex_funs : funs :=
      f_tfdefmd := fun d => 500 + d;
      f_dgsan := fun p => p;
      f_pairjson := fun p => p;
-     f_addr_ok := fun k => negb (k =? 0); f_canon := fun k => k; f_dgp_ok := fun _ => true; f_dgp_enabled := fun _ => true;
-     f_gov := 1; f_empty := 0 |}.
+     f_addr_ok := fun k => negb (k =? 99); f_canon := fun k => k; f_dgp_ok := fun _ => true; f_dgp_enabled := fun _ => true;
+     f_gov := 1; f_empty := 99 |}.
 Definition ex_env : list authacc :=
   [ {| aa_addr := 1; aa_eth := true; aa_hash := 0 |};        (* EOA *)
     {| aa_addr := 3; aa_eth := true; aa_hash := 1 |};        (* contract with storage *)
@@ -758,7 +775,7 @@ Proof. apply wf_appb_sound. vm_compute. reflexivity. Qed.
 
 (** … and on it the round trip really drops / re-bases what the exception list says (and nothing else). *)
 Example app_roundtrip_nonvacuous :
-  let c := {| c_rid := RidLastPlus1; c_tf_keeps_bank_md := true; c_pair_json_id := true; c_dg_upd := DgUpdKeep |} in
+  let c := {| c_rid := RidLastPlus1; c_tf_keeps_bank_md := true; c_pair_json_id := true; c_dg_upd := DgUpdKeep; c_ep_val := EpValNonneg; c_ep_swallow := true |} in
   exists g s', export_app ex_env ex_state = Some g /\
     init_app c ex_funs ex_env (tf_bankmd (a_tf ex_state)) 100%Z 2000%Z g = Some s' /\
     s' <> ex_state /\
@@ -770,12 +787,20 @@ Proof.
   split; [discriminate|]. repeat split; vm_compute; reflexivity.
 Qed.
 
+Lemma cfg_ok_parts : forall c, cfg_ok c = true ->
+  match c_rid c with RidLastPlus1 => c_tf_keeps_bank_md c && c_pair_json_id c | _ => false end = true /\
+  c_dg_upd c = DgUpdKeep /\ c_ep_val c = EpValNonneg.
+Proof.
+  intros c H. unfold cfg_ok in H. apply andb_true_iff in H. destruct H as [H H3]. apply andb_true_iff in H. destruct H as [H1 H2].
+  split; [exact H1|]. split; [destruct (c_dg_upd c); congruence | destruct (c_ep_val c); congruence].
+Qed.
+
 (* ================================================================== corollaries exported by Property.v *)
-Lemma export_roundtrip : forall c F env h t s, wf_app F env s ->
+Lemma export_roundtrip : forall c F env h t s, c_ep_val c = EpValNonneg -> wf_app F env s ->
   exists g s' g', export_app env s = Some g /\ init_app c F env (tf_bankmd (a_tf s)) h t g = Some s' /\
                   export_app env s' = Some g' /\ gen_equiv h g g'.
 Proof.
-  intros c F env h t s W. destruct (app_roundtrip c F env h t s W) as (g & s' & H1 & H2 & H3 & _).
+  intros c F env h t s Hep W. destruct (app_roundtrip c F env h t s Hep W) as (g & s' & H1 & H2 & H3 & _).
   exists g, s', (rebase_gen h g). split; [exact H1|]. split; [exact H2|]. split; [exact H3|]. reflexivity.
 Qed.
 
@@ -783,15 +808,16 @@ Lemma state_equiv_strict : forall c F env h t s, cfg_ok c = true -> wf_app F env
   exists g s', export_app env s = Some g /\ init_app c F env (tf_bankmd (a_tf s)) h t g = Some s' /\
                state_equiv false false env h t s s'.
 Proof.
-  intros c F env h t s Hc W. destruct (app_roundtrip c F env h t s W) as (g & s' & H1 & H2 & _ & H4).
-  exists g, s'. unfold cfg_ok in Hc. apply andb_true_iff in Hc. destruct Hc as [Hc _]. destruct (c_rid c); try discriminate.
+  intros c F env h t s Hc W.
+  destruct (app_roundtrip c F env h t s (proj2 (proj2 (cfg_ok_parts c Hc))) W) as (g & s' & H1 & H2 & _ & H4).
+  exists g, s'. apply cfg_ok_parts in Hc. destruct Hc as [Hc _]. destruct (c_rid c); try discriminate.
   apply andb_true_iff in Hc. destruct Hc as [Hc _]. rewrite Hc in H4. cbn in H4.
   split; [exact H1|]. split; [exact H2|]. exact H4.
 Qed.
 
 Lemma exceptions_of_ok_cfg : forall c, cfg_ok c = true -> exceptions c = tolerated.
 Proof.
-  intros c Hc. unfold cfg_ok in Hc. apply andb_true_iff in Hc. destruct Hc as [Hc _]. unfold exceptions. destruct (c_rid c); try discriminate.
+  intros c Hc. apply cfg_ok_parts in Hc. destruct Hc as [Hc _]. unfold exceptions. destruct (c_rid c); try discriminate.
   apply andb_true_iff in Hc. destruct Hc as [Hc _]. rewrite Hc. reflexivity.
 Qed.
 
@@ -803,16 +829,21 @@ Proof.
   rewrite Hg. cbn. exact (Hk _ _ Hin).
 Qed.
 
-Lemma wf_after_import : forall F env h t s s',
+Lemma wf_after_import : forall F env h t s s', (0 <= h)%Z ->
   wf_app F env s -> state_equiv false false env h t s s' -> wf_app F env s'.
 Proof.
-  intros F env h t s s' [Wsu [Hes Hek Hest] Wo Wt Wd Wv Wenv Wjson] (Esu & Einf & Eep & Eo & Etf & Edg & Eev).
+  intros F env h t s s' Hh0 [Wsu [Hes Hek Hest Hev] Wo Wt Wd Wv Wenv Wjson] (Esu & Einf & Eep & Eo & Etf & Edg & Eev).
   constructor.
   - rewrite Esu. exact Wsu.
   - unfold epochs_equiv in Eep. rewrite Eep. constructor.
     + rewrite (sortedb_map_vals _ _ (fun kv => rebase_epoch h (snd kv))). exact Hes.
     + apply (keys_match_map_vals _ ep_id (fun kv => rebase_epoch h (snd kv))); [reflexivity | exact Hek].
     + intros k e Hin. apply in_map_iff in Hin. destruct Hin as [[k0 e0] [E Hin]]. cbn in E. inversion E; subst. cbn. exact (Hest _ _ Hin).
+    + (* the re-based height is the import height: valid because it is not negative — height 0 included *)
+      intros k e Hin. apply in_map_iff in Hin. destruct Hin as [[k0 e0] [E Hin]]. cbn in E. inversion E; subst.
+      pose proof (Hev _ _ Hin) as Hv. unfold epoch_valid in *. cbn [rebase_epoch ep_id ep_dur ep_height ep_started] in *.
+      apply andb_true_iff in Hv. destruct Hv as [Hv _]. apply andb_true_iff in Hv. destruct Hv as [Hv _].
+      rewrite Hv. apply Z.leb_le in Hh0. rewrite Hh0. reflexivity.
   - destruct Eo as (E1 & E2 & E3 & E4 & E5 & E6 & E7 & E8 & E9 & E10 & _).
     destruct Wo as [Hr Hf Hm Hpv Hv Hp Kpv Kv [Hrs Hrk] Hne].
     constructor; try (rewrite ?E3, ?E4, ?E5, ?E6, ?E7; assumption).
@@ -836,19 +867,20 @@ Qed.
 
 (** hence the round trip can be iterated: importing the second export (at any later height) gives a
     third export that is again the first one up to the epoch start heights *)
-Lemma roundtrip_twice : forall c F env h t h2 t2 s, cfg_ok c = true -> wf_app F env s ->
+Lemma roundtrip_twice : forall c F env h t h2 t2 s, (0 <= h)%Z -> cfg_ok c = true -> wf_app F env s ->
   exists g s' s'' g'',
     export_app env s = Some g /\ init_app c F env (tf_bankmd (a_tf s)) h t g = Some s' /\
     init_app c F env (tf_bankmd (a_tf s')) h2 t2 (rebase_gen h g) = Some s'' /\
     export_app env s'' = Some g'' /\ gen_equiv h2 g g''.
 Proof.
-  intros c F env h t h2 t2 s Hc W.
-  destruct (app_roundtrip c F env h t s W) as (g & s' & H1 & H2 & H3 & H4).
+  intros c F env h t h2 t2 s Hh Hc W.
+  pose proof (proj2 (proj2 (cfg_ok_parts c Hc))) as Hep.
+  destruct (app_roundtrip c F env h t s Hep W) as (g & s' & H1 & H2 & H3 & H4).
   assert (H4' : state_equiv false false env h t s s').
-  { unfold cfg_ok in Hc. apply andb_true_iff in Hc. destruct Hc as [Hc _]. destruct (c_rid c); try discriminate.
+  { apply cfg_ok_parts in Hc. destruct Hc as [Hc _]. destruct (c_rid c); try discriminate.
     apply andb_true_iff in Hc. destruct Hc as [Hc _]. rewrite Hc in H4. exact H4. }
-  pose proof (wf_after_import F env h t s s' W H4') as W'.
-  destruct (app_roundtrip c F env h2 t2 s' W') as (g2 & s'' & K1 & K2 & K3 & _).
+  pose proof (wf_after_import F env h t s s' Hh W H4') as W'.
+  destruct (app_roundtrip c F env h2 t2 s' Hep W') as (g2 & s'' & K1 & K2 & K3 & _).
   rewrite H3 in K1. inversion K1; subst g2.
   exists g, s', s'', (rebase_gen h2 (rebase_gen h g)). repeat (split; [assumption|]).
   unfold gen_equiv, rebase_gen. cbn. f_equal. rewrite map_map. reflexivity.
